@@ -288,7 +288,7 @@ func (r *R) Finish(rule string, exhaustive bool) {
 		"wall_s":      time.Since(r.start).Seconds(),
 		"violations":  violations,
 	}
-	if r.Replay == "" && os.Getenv("VERIF_NO_EVIDENCE") == "" {
+	if r.Replay == "" && os.Getenv("VERIF_NO_EVIDENCE") == "" && os.Getenv("VERIF_PARTS") == "" { // (a run restricted to some parts is a development aid)
 		b, _ := json.MarshalIndent(ev, "", " ")
 		_ = os.MkdirAll(filepath.Join(root, "evidence"), 0o755)
 		if err := os.WriteFile(filepath.Join(root, "evidence", r.Prop+".json"), b, 0o644); err != nil {
